@@ -109,7 +109,9 @@ def gen_touch(module, traits):
                 elif t[0] == "struct":
                     body.append("  touch_%s(v.%s());" % (cppdrv._obs_name(module, m, alias, t[1])[4:], n))
                 elif t[0] == "array":
-                    body.append("  { auto a = v.%s(); (void)a.Ok(); (void)a.IsComplete(); (void)a.ElementCount(); (void)a.SizeInBytes(); (void)a.begin(); (void)a.end();" % n)
+                    in_bits = s.kind == "bits" or not any(f is g for g in s.fields)
+                    body.append("  { auto a = v.%s(); (void)a.Ok(); (void)a.IsComplete(); (void)a.ElementCount(); (void)a.SizeIn%s(); (void)a.begin(); (void)a.end();" % (
+                        n, "Bits" if in_bits else "Bytes"))
                     if t[1][0] == "struct":
                         body.append("    touch_%s(a[0]); }" % cppdrv._obs_name(module, m, alias, t[1][1])[4:])
                     else:
@@ -141,6 +143,8 @@ def ir_constants(ir, ns):
                            "$max_size_in_bits": "MaxSizeInBits", "$min_size_in_bits": "MinSizeInBits"}.get(fname, fname)
                     if fname.startswith("emboss_reserved"):
                         continue
+                    if e.ir_util.constant_value(f.existence_condition) is not True:
+                        continue       # only a field that certainly exists gets a static constant accessor
                     if ty.which_type == "integer" and ty.integer.modulus == "infinity":
                         v = int(ty.integer.modular_value)
                         lit = "%dULL" % v if v >= 2 ** 63 else ("(-9223372036854775807LL - 1)" if v == -2 ** 63 else "%dLL" % v)
